@@ -2,7 +2,8 @@
 import json, os, subprocess, re, shutil, time
 from concurrent.futures import ThreadPoolExecutor
 
-VERIF = "/verif"
+# root of this verification tree (normally /verif; a snapshot under /root/.vp/runs/<n>/verif for `vp run`)
+VERIF = os.path.dirname(os.path.dirname(os.path.dirname(os.path.realpath(__file__))))
 SPEC = VERIF + "/spec"
 WORK = VERIF + "/work"
 VFH = VERIF + "/target/harness/debug/vfh"
@@ -95,7 +96,7 @@ DRIFT = re.compile(r'<<\s*"DRIFT",\s*(\d+),\s*"([a-z]+)"\s*>>')
 
 def conform(name, trace, metadir, timeout=1800):
     """CF_<name> over a trace file.  Returns (accepted, [(line, ev)] drift lines, raw output)."""
-    env = dict(os.environ, TRACE=trace, JAVA_TOOL_OPTIONS=JOPTS + " -Xmx4g -DTLA-Library=/verif/spec")
+    env = dict(os.environ, TRACE=trace, JAVA_TOOL_OPTIONS=JOPTS + " -Xmx4g -DTLA-Library=" + VERIF + "/spec")
     cmd = ["timeout", str(timeout), "tlc", "-workers", "1", "-metadir", metadir, "-cleanup", "-noGenerateSpecTE",
            "-config", f"CF_{name}.cfg", f"CF_{name}.tla"]
     p = subprocess.run(cmd, cwd=SPEC + "/mc", env=env, capture_output=True, text=True)
